@@ -23,6 +23,12 @@ CHECKS = {
     "C08": ("exploration", "same engine over generated transactional logs (<=4 producers, committed/aborted/open transactions, compaction, solitary abort markers) at both isolation levels; reference reader from the model's aborted-transaction index; progress past filtered ranges", "DESIGN.md 5 C08"),
     "C12": ("exploration", "real AIOKafkaConnection / AIOKafkaClient.send against a scripted peer; the finite single-fault space (every 1-cut split of short responses, EOF/reset at every byte) is enumerated first, then seeded search over pipelining, timeouts, cancellation, wrong/duplicate/unsolicited ids, malformed frames, counter wrap", "DESIGN.md 5 C12"),
     "C13": ("exploration", "group-less consumers: policies earliest/latest/none x isolation levels x ListOffsets v0-v3 x retriable lookup faults x seek() racing with the reset; first position / first record must match a ListOffsets reply actually served, out-of-range seeks must reset or raise per policy; every fourth run is a 1-2 member consumer group against the coordinator model with committed offsets absent / inside / beyond the log end, growing logs, member and coordinator faults: each assignment must start at a committed offset the coordinator served, judged against the log range at lookup time, else per policy", "DESIGN.md 5 C13"),
+    "C04": ("exploration", "consumer groups of 1-4 real members (plus late joiners and replacements) on one loop against the group-coordinator model: members killed (no leave, no final commit), stopped, restarted, session-expired, coordinator moved / loading, commit replies failing or delayed, data-partition leaders moving; plain and rich logs (transactions, markers, compaction, legacy/compressed batches) at both isolation levels; every commit the coordinator accepted is checked against the records that member had been handed before it wrote the request, every assignment must start at an offset the brokers served (a reset only after a delivered 'no committed offset' answer), and after the quiet period the group as a whole has delivered every visible record", "DESIGN.md 5 C04"),
+    "C05": ("exploration", "same group engine with rebalance listeners of seeded duration, equal / different / pattern subscriptions, range / round-robin / sticky assignors, partition growth, topic creation, resubscription during a rebalance: per generation the distributed assignments (decoded by an independent ConsumerProtocol parser) are disjoint and within each member's subscription, each member adopts exactly what it was sent, nothing is delivered between revoke and the next assign containing the partition, deliveries of an incarnation are the contiguous visible records from its start, and all revoke callbacks of a generation finish before its first assigned callback begins", "DESIGN.md 5 C05"),
+    "C06": ("exploration", "same group engine with heavier coordinator faults (every documented error code on JoinGroup/SyncGroup/Heartbeat/OffsetCommit/OffsetFetch/FindCoordinator/LeaveGroup replies, drops, lost replies, delays, coordinator move with and without state, loading windows, session expiry, broker outages), JoinGroup v0-v5 and OffsetFetch v1-v3 brokers, 1-3 assignors, static members: request-ledger clauses (every JoinGroup lists all strategies in order; a delivered successful JoinGroup reply is followed by that member's SyncGroup unless a fault, a duration fault or a subscription change since its last SyncGroup intervenes) and bounded liveness after the last fault effect (every live member in the latest generation, heartbeating, assignments partition the subscribed partitions, no further rebalance); a client task spinning at one virtual instant is a violation", "DESIGN.md 5 C06"),
+    "C07": ("exploration", "1-2 real transactional producers (plus a replacement with the same transactional id after a kill, and zombies via stall) against the transaction-coordinator model: 1-6 transactions with concurrent send tasks, send_offsets_to_transaction, commit or abort via calls or the context manager; retriable faults on every transactional API, Produce and FindCoordinator, coordinator moves / loading, broker outages, leader moves, natural CONCURRENT_TRANSACTIONS from marker latency; online protocol-order monitor (no transactional Produce before the AddPartitionsToTxn acknowledgement reached the producer, no EndTxn with an unresolved send future, no transactional batch outside an Ongoing transaction) and an independent read-committed reader over the final logs and group offsets (committed => all once, aborted/failed/fenced => none, in doubt => all or none); bounded liveness of every call under retriable faults", "DESIGN.md 5 C07"),
+    "C16": ("fault_enumeration", "every call sequence up to length 4 over {begin, send(p0), send(p1), send_offsets, commit, abort, context exit ok / with exception} (4680 programs, exhaustive) plus seeded length 5-6 programs in quick, length <= 6 exhaustively in thorough; each program is run fault-free, its transactional requests are recorded, and single-fault variants (abortable, fatal, retriable error replies, lost replies, dropped connections at the n-th request of each API) are derived from them and run; every call's outcome is judged against a READY/IN_TXN/ABORTABLE/FATAL reference model, out-of-order calls must raise without coordinator-visible effect, an abortable error must be recoverable by abort + a fresh transaction, after a fatal error nothing more is written and pending sends fail; the C07 read-committed reader runs on every history", "DESIGN.md 5 C16"),
+    "C19": ("fault_enumeration", "producer, transactional producer, group consumer and group-less consumer workloads with the cluster healthy, one broker black-holed, or failing over (coordinator move / loading, broker down, leader move): the scenario is run once to count its events after start(), then re-run with stop() issued right after event k (seeded sample of k in quick, 40 per scenario in thorough, all k when the scenario is short); stop() must return within a bound computed from the run's request / session / rebalance timeouts, afterwards no task, timer or open transport owned by the client may remain, API calls blocked at the time must have been released, later calls raise the documented error, and a reachable coordinator has seen the member leave", "DESIGN.md 5 C19"),
     "C18": ("exploration", "real connect() with SCRAM-SHA-256/512 (handshake v0 raw tokens and v1) against an RFC 5802 server model: honest, wrong password, single-field tampering of either server message, impostor; client messages validated against the RFC grammar, login must succeed iff the server is honest and knows the password", "DESIGN.md 5 C18"),
 }
 
@@ -39,9 +45,9 @@ def main():
             "level_note": NOTE, "technique": TECH})
     claimed = set(CHECKS)
     na = [{"property_id": p, "reason": r} for p, r in NA]
-    for pid in ("C04", "C05", "C06", "C07", "C10", "C11", "C16", "C19"):
+    for pid in ("C10", "C11"):
         if pid not in claimed:
-            na.append({"property_id": pid, "reason": "not claimed yet: its engine is still under construction in this session (see DESIGN.md); will move to checks when it lands"})
+            na.append({"property_id": pid, "reason": "not claimed yet: its check is still under construction in this session (see DESIGN.md 5); will move to checks when it lands"})
     m = {
         "version": 1,
         "setup_cmd": "/venv/bin/python -c \"import Cython, cramjam, async_timeout; print('ok')\" && test -x /verif/check",
